@@ -52,6 +52,8 @@ impl Hooks for Owners {
             PageOp::Allocate => {
                 st.allocs += 1;
                 *st.pages_by_class.entry(cls.clone()).or_default() += 1;
+                // (allocate_page claims the page through ensure_allocated first: a page that still
+                // belongs to another structure is reported there, as a foreign claim)
                 st.owner.insert(page_id, cls);
             }
             PageOp::Free => {
@@ -94,7 +96,10 @@ fn big_value(rng: &mut Rng) -> PV {
 /// structures growing in between; family 2: few nodes, heavy growth of everything else.
 fn gen_history(seed: u64, k: usize) -> (usize, Vec<Op>, Model) {
     let mut rng = Rng::derive(seed, k as u64);
-    let fam = k % 3;
+    let fam = k % 4;
+    if fam == 3 {
+        return gen_eof_history(&mut rng);
+    }
     let target_nodes = match fam {
         0 => 520 + rng.below(200),
         1 => 1030 + rng.below(300),
@@ -164,6 +169,50 @@ fn gen_history(seed: u64, k: usize) -> (usize, Vec<Op>, Model) {
     (fam, h, m)
 }
 
+/// The node table is the last structure in the file when it grows past a 512-record boundary
+/// (only nodes are created before), and only then do other structures allocate pages.
+fn gen_eof_history(rng: &mut Rng) -> (usize, Vec<Op>, Model) {
+    let mut m = Model::default();
+    let mut h: Vec<Op> = Vec::new();
+    let mut next_ext = 50_000u64;
+    let mut push = |h: &mut Vec<Op>, m: &mut Model, op: Op| {
+        m.apply_op(&op);
+        h.push(op);
+    };
+    let first = 513 + rng.below(30);
+    let mut nodes_tx = |n: usize, next_ext: &mut u64| {
+        let ws: Vec<W> = (0..n)
+            .map(|_| {
+                *next_ext += 1;
+                W::CreateNode { ext: *next_ext, labels: vec!["A".to_string()] }
+            })
+            .collect();
+        Op::Tx { writes: ws, commit: true }
+    };
+    // one or several transactions, nothing else in between
+    let mut left = first;
+    while left > 0 {
+        let n = left.min(100 + rng.below(500));
+        let op = nodes_tx(n, &mut next_ext);
+        push(&mut h, &mut m, op);
+        left -= n;
+    }
+    // now the other structures allocate
+    match rng.below(3) {
+        0 => push(&mut h, &mut m, Op::CreateIndex { label: "A".into(), field: "k".into() }),
+        1 => push(&mut h, &mut m, Op::Tx { writes: vec![W::SetNodeProp { node: 3, key: "p".into(), val: PV::String("z".repeat(10_000)) }], commit: true }),
+        _ => push(&mut h, &mut m, Op::Compact),
+    }
+    // indexed property values and more nodes (the node table grows again)
+    let n_nodes = m.nodes.len();
+    let ws: Vec<W> = (0..60).map(|i| W::SetNodeProp { node: (i * 7 % n_nodes) as u32, key: "k".into(), val: PV::Int((i % 5) as i64) }).collect();
+    push(&mut h, &mut m, Op::Tx { writes: ws, commit: true });
+    let op = nodes_tx(100 + rng.below(500), &mut next_ext);
+    push(&mut h, &mut m, op);
+    push(&mut h, &mut m, Op::Compact);
+    (3, h, m)
+}
+
 fn run_case(seed: u64, k: usize, out: &mut CaseOut) -> Vec<Violation> {
     let (fam, h, model) = gen_history(seed, k);
     let owners = Arc::new(Owners { st: Mutex::new(OwnerState::default()) });
@@ -173,7 +222,7 @@ fn run_case(seed: u64, k: usize, out: &mut CaseOut) -> Vec<Violation> {
     let keys: Vec<String> = ["k", "p", "q"].iter().map(|s| s.to_string()).collect();
     let types: Vec<String> = ["R", "S"].iter().map(|s| s.to_string()).collect();
     let uni = Universe { keys: &keys, types: &types };
-    let famname = ["512-boundary", "1024-boundary", "few-nodes-heavy-growth"][fam];
+    let famname = ["512-boundary", "1024-boundary", "few-nodes-heavy-growth", "node-table-at-end-of-file"][fam];
     let replay = json!({"engine":"storemon","property":"C18","seed":seed,"case":k});
     let mut step_failure: Option<String> = None;
     let mut sut = match Sut::open(&dir.db_base()) {
@@ -282,7 +331,7 @@ pub fn main(args: &Args) -> Report {
         rep.out = out;
         return rep;
     }
-    let n = if args.thorough() { 300 } else { 18 };
+    let n = if args.thorough() { 320 } else { 24 };
     let deadline = Instant::now() + Duration::from_secs(args.budget_s(150, 1500));
     let seed = args.seed;
     let (out, _) = par_cases(n, threads(), Some(deadline), |k| {
